@@ -1296,7 +1296,7 @@ impl<'w, 'r, 'gc> Cb<'w, 'r, 'gc> {
 
 pub fn route_label(kind: Kind, slot: usize, route: Route) -> String {
     match kind {
-        Kind::Field => format!("slot{slot}"),
+        Kind::Field | Kind::Bag => format!("slot{slot}"),
         _ => format!("{route:?}"),
     }
 }
